@@ -299,6 +299,9 @@ Definition dispatch (name : str) (arg : sx) : sx :=
   else if eqb name (lit "C10.ok") then
     sB (Spec.C10.ok {| cap := as_Q (nth_sx 0 arg); rate := as_Q (nth_sx 1 arg) |}
                     (map read_log_entry (as_list (nth_sx 2 arg))))
+  else if eqb name (lit "C10.ideal") then
+    sB (Spec.C10.ideal_ok {| cap := as_Q (nth_sx 0 arg); rate := as_Q (nth_sx 1 arg) |}
+                          (map read_log_entry (as_list (nth_sx 2 arg))))
   else if eqb name (lit "acl") then
     (* arg: enabled allow deny default peer nettable *)
     match server_admits (ipnet_of_table (nth_sx 5 arg))
